@@ -6,6 +6,9 @@ sys.path.insert(0, ROOT)
 from checks_config import CHECKS, NOT_APPLICABLE, HOOK_COMMITS
 
 props = [json.loads(l)["id"] for l in open(os.path.join(ROOT, "properties.jsonl"))]
+# hook commits in /repo carry the subject prefix "verif hook"
+HOOK_COMMITS = subprocess.run(["git", "-C", "/repo", "log", "--format=%H", "--grep=^verif hook"], stdout=subprocess.PIPE,
+                              text=True).stdout.split()
 checks = []
 for pid in props:
     if pid not in CHECKS:
